@@ -114,16 +114,16 @@ Fixpoint eval_iter (e : iexp) (m : mstate) : nat * mstate :=
   | EFilter p e1 => let '(i, m1) := eval_iter e1 m in alloc (OFilter p i) m1
   end.
 
-Definition m_next (id : nat) (m : mstate) : option (value * mstate) :=
-  match obj_next OFUEL (ms m) id with
+Definition m_next (ofuel : nat) (id : nat) (m : mstate) : option (value * mstate) :=
+  match obj_next ofuel (ms m) id with
   | None => None
   | Some (v, s) => Some (v, m_store m s)
   end.
 
 (* IterNext: CopyTop (the hidden iterator is the top of the stack at loop_start) + Invoke next *)
-Definition next_hidden (m : mstate) : option (value * mstate) :=
+Definition next_hidden (ofuel : nat) (m : mstate) : option (value * mstate) :=
   match last (stack m) (LVal VNil) with
-  | LIter id => m_next id m
+  | LIter id => m_next ofuel id m
   | LVal _ => Some (VNil, m)
   end.
 (* SetLocal loop_var: the slot just below the iterator *)
@@ -151,7 +151,7 @@ Definition wrap_body (loc : bool) (d : nat) (run : mstate -> ctl * mstate) (m : 
   end.
 
 (* one statement; [rec d' ss] runs a nested block at loop depth d' *)
-Definition exec_stmt (rec : nat -> list stmt -> mstate -> ctl * mstate) (k : nat) (loc : bool) (d : nat)
+Definition exec_stmt (rec : nat -> list stmt -> mstate -> ctl * mstate) (k ofuel : nat) (loc : bool) (d : nat)
   (s : stmt) (m : mstate) : ctl * mstate :=
   match s with
   | SPrintVar v => (CNormal, m_print m (line_of (get_var loc m v)))
@@ -161,7 +161,7 @@ Definition exec_stmt (rec : nat -> list stmt -> mstate -> ctl * mstate) (k : nat
     let '(id, m2) := eval_iter e m1 in
     let m3 := push m2 (LIter id) in
     let m4 := m_cnts m3 (upd (cnts m3) d 0) in
-    let '(c, m5) := for_rounds next_hidden set_loopvar (wrap_body loc d (rec (S d) body)) k m4 in
+    let '(c, m5) := for_rounds (next_hidden ofuel) set_loopvar (wrap_body loc d (rec (S d) body)) k m4 in
     match c with
     | CReturn | CFuel => (c, m5)
     | _ => (CNormal, marker (pop (pop m5)))
@@ -172,7 +172,7 @@ Definition exec_stmt (rec : nat -> list stmt -> mstate -> ctl * mstate) (k : nat
   | SReturn => (CReturn, m)
   | SLet n e => let '(id, m1) := eval_iter e m in (CNormal, m_slots m1 (upd (slots m1) n id))
   | SNext n =>
-    match m_next (nth n (slots m) 0) m with
+    match m_next ofuel (nth n (slots m) 0) m with
     | None => (CFuel, m)
     | Some (v, m1) => (CNormal, m_print m1 (line_of v))
     end
@@ -186,27 +186,27 @@ Definition exec_stmt (rec : nat -> list stmt -> mstate -> ctl * mstate) (k : nat
     let '(vid, s) := alloc_vec (ms m) xs in (CNormal, m_wvars (m_store m s) (upd (wvars m) n vid))
   | SCollect e =>
     let '(id, m1) := eval_iter e m in
-    match collect_loop k OFUEL (ms m1) id with
+    match collect_loop k ofuel (ms m1) id with
     | (CNormal, (acc, _, s)) => (CNormal, m_print (m_store m1 s) (line_of_vec acc))
     | (_, (_, _, s)) => (CFuel, m_store m1 s)
     end
   | SReduce g init e =>
     let '(id, m1) := eval_iter e m in
-    match fold_loop k OFUEL (apply_rd g) init (ms m1) id with
+    match fold_loop k ofuel (apply_rd g) init (ms m1) id with
     | (CNormal, (acc, _, s)) => (CNormal, m_print (m_store m1 s) (line_of acc))
     | (_, (_, _, s)) => (CFuel, m_store m1 s)
     end
   end.
 
-Fixpoint exec (fuel : nat) (loc : bool) (d : nat) (ss : list stmt) (m : mstate) : ctl * mstate :=
+Fixpoint exec (fuel ofuel : nat) (loc : bool) (d : nat) (ss : list stmt) (m : mstate) : ctl * mstate :=
   match fuel with
   | O => (CFuel, m)
   | S k =>
     match ss with
     | [] => (CNormal, m)
     | s :: rest =>
-      match exec_stmt (exec k loc) k loc d s m with
-      | (CNormal, m') => exec k loc d rest m'
+      match exec_stmt (exec k ofuel loc) k ofuel loc d s m with
+      | (CNormal, m') => exec k ofuel loc d rest m'
       | other => other
       end
     end
@@ -226,9 +226,9 @@ Definition finish (loc : bool) (r : ctl * mstate) : list (list byte) :=
   end.
 
 Definition eval_mech (p : prog) : list (list byte) :=
-  finish (p_locals p) (exec FUEL (p_locals p) 0 (p_body p) init_m).
+  finish (p_locals p) (exec FUEL OFUEL (p_locals p) 0 (p_body p) init_m).
 Definition early_exits (p : prog) : nat :=
-  nth EARLY (cnts (snd (exec FUEL (p_locals p) 0 (p_body p) init_m))) 0.
+  nth EARLY (cnts (snd (exec FUEL OFUEL (p_locals p) 0 (p_body p) init_m))) 0.
 
 (* =====================================================================================
    (a) Spec
